@@ -5,6 +5,7 @@ namespace Percival.Proofs.ParsenumFloat
 open Percival.Spec.Numeral Percival.Spec.FloatNumeral Percival.Model.Strto Percival.Model.Strtod Percival.Model.ParsenumFloat
 open Percival.Proofs.FloatNumeral
 open Percival.Model.Parsenum (malformed)
+open Percival.Spec.Ieee (Fl)
 
 /-- `((*x = 1, *x /= 2) > 0)` holds for `float` and `double` -/
 theorem probeFloat_true (t : FTy) : probeFloat t = true := by
